@@ -144,8 +144,22 @@ def nested(R, snap, rnd):
         # a state whose id occurs more than once may be the memoised node (its own JSON is then never read, nor is
         # anything below it): such states and everything under them are outside what this oracle can judge
         repeated = [path for path, st in states if st.get("__id__") and len(by_id[idkey(st["__id__"])]) > 1]
+        # positions no loader reads (the generator plants node-shaped JSON there on purpose): the bounds of a SliceNode and
+        # top-level keys that are not part of any layout
+        def under_inert(path):
+            node = c["schema"]
+            for i, seg in enumerate(path):
+                if isinstance(node, dict) and isinstance(node.get("__loader__"), str):
+                    if seg in G.INERT_KEYS:
+                        return True
+                    if node["__loader__"] == "SliceNode" and seg == "content":
+                        return True
+                node = node[seg]
+            return False
         for path, st in states:
             if any(path[: len(rp)] == rp and (len(path) > len(rp) or True) for rp in repeated):
+                continue
+            if under_inert(path):
                 continue
             loader = st["__loader__"]
             tag = reg.get((loader, proto if type(proto) is int else cur)) or reg.get((loader, cur))
@@ -157,6 +171,11 @@ def nested(R, snap, rnd):
             else:
                 m, k = st.get("__module__"), st.get("__class__")
             if not (isinstance(m, str) and isinstance(k, str)):
+                # a name that is not text cannot be a member of any family: the archive must not be inspected/loaded as clean
+                if r["load"].startswith("returned"):
+                    R.violation({"kind": "non-text-name-accepted", "loader": loader},
+                                f"{loader} at {list(path)} carries the name ({m!r}, {k!r}) and the archive loads with no trusted list",
+                                {"case": {k2: c[k2] for k2 in ("schema", "members", "show")}, "T": None, "observed": {"gut": r["gut"], "load": r["load"]}})
                 continue
             name = f"{m}.{k}"
             if name in gut or name in snap["classes"][tag]["defaults"] or name in handed_down:
